@@ -407,6 +407,71 @@ type replayResult struct {
 	Events     json.RawMessage `json:"events,omitempty"`
 }
 
+// isolatedSearch runs the first n generated scenarios of every simulation part
+// with one engine process per run (16 at a time) and returns the finding with
+// the lowest index, if any. Used only when the library under test carries state
+// from run to run inside a process, so that ordinary findings do not replay.
+func isolatedSearch(prop, tier string, seed uint64, parts []part, n int) *found {
+	var best *found
+	for _, p := range parts {
+		if p.Race {
+			continue
+		}
+		bin := buildEngine(p.Engine, false)
+		var mu sync.Mutex
+		var wg sync.WaitGroup
+		next := 1 // (index 0 would run the preface corpus first)
+		stop := false
+		for w := 0; w < procs(); w++ {
+			wg.Add(1)
+			go func(w int) {
+				defer wg.Done()
+				for {
+					mu.Lock()
+					i := next
+					next++
+					done := stop || i > n
+					mu.Unlock()
+					if done {
+						return
+					}
+					out := filepath.Join(scratch, fmt.Sprintf("iso-%s-%d.json", p.Engine, w))
+					env := []string{
+						"SIM_MODE=search", "SIM_PROP=" + prop, "SIM_TIER=" + tier,
+						"SIM_SEED=" + strconv.FormatUint(seed, 10),
+						"SIM_START=" + strconv.Itoa(i), "SIM_STRIDE=1", "SIM_COUNT=1",
+						"SIM_BUDGET_S=120", "SIM_OUT=" + out, "SIM_WATCHDOG_S=300",
+					}
+					if kf := knownFor(prop); len(kf) > 0 {
+						kb, _ := json.Marshal(kf)
+						env = append(env, "SIM_KNOWN="+string(kb))
+					}
+					if _, err := runCmd(scratch, env, bin, "-test.run", "^TestSim$", "-test.timeout", "0", "-test.cpu", "1"); err != nil {
+						continue
+					}
+					st := &workerStats{}
+					b, err := os.ReadFile(out)
+					if err != nil || json.Unmarshal(b, st) != nil || st.Found == nil {
+						continue
+					}
+					mu.Lock()
+					stop = true
+					if best == nil || uint(st.Found.Index) < uint(best.Index) {
+						best = st.Found
+					}
+					mu.Unlock()
+					return
+				}
+			}(w)
+		}
+		wg.Wait()
+		if best != nil {
+			return best
+		}
+	}
+	return nil
+}
+
 // handleViolation shrinks, replays in a fresh process, writes the replay file.
 func handleViolation(f *found, race bool) string {
 	rdir := envOr("VERIF_REPLAY_DIR", filepath.Join(verifDir, "replays"))
@@ -683,6 +748,13 @@ func check(prop, tier string) int {
 				best = c
 				break
 			}
+		}
+		if best == nil {
+			// every finding depended on what earlier runs had left behind. Last
+			// resort: a search in which every run is the first and only run of its
+			// process - what such a run violates, a fresh process reproduces
+			fmt.Fprintf(os.Stderr, "vcheck: none of the %d findings reproduces in a fresh process; searching again with one process per run\n", len(cands))
+			best = isolatedSearch(prop, tier, seed, cfg.Parts, 6000)
 		}
 		if best == nil {
 			die(2, "none of the %d findings reproduces in a fresh process as recorded (%d of %d re-executed runs differed from their first execution): something carries state from run to run inside a worker process; machinery trouble, not a verdict", len(cands), mismatches, reruns)
